@@ -54,7 +54,7 @@ CompIndex(comp) ==
 PathIndexes(text) == LET parts == SplitSlash(text, 1, <<>>, <<>>) IN
   IF parts[1] \notin {<<109>>, <<77>>} THEN <<<<-1>>>> ELSE [j \in 1..(Len(parts) - 1) |-> CompIndex(parts[j + 1])]
 WhyPath(c) == LET idx == PathIndexes(c.path) IN
-  IF \E j \in 1..Len(idx) : idx[j] = <<-1>> THEN (IF c.res = "ok" THEN "accepts-malformed-path" ELSE "")
+  IF \E j \in 1..Len(idx) : idx[j] = <<-1>> THEN ""      \* not a path of the property's quantifier (lenient parsing of e.g. "m/ 1" or "m/2147483648" is not excluded by it): no verdict
   ELSE IF c.res # "ok" THEN "rejects-valid-path"
   ELSE IF c.stepwise_text # c.text THEN "traverse-differs-from-stepwise-derivation"
   ELSE IF c.indexes # idx THEN "path-indexes" ELSE ""
